@@ -24,25 +24,29 @@ UNDECIDED = ("What the workspace looks like after a process death at each file-s
 
 MODULES = ("signac.job", "signac.project", "signac._utility")
 
-# frozen table: (function qual, normalised handler header) -> reason it may fall through without raising
-C11_TABLE = {
-    ("signac.job:_StatePointDict.save", "except Exception"):
-        "EEXIST/EACCES on the state point write pass through: the caller (Job.init) re-validates by loading the file afterwards (C02-c)",
-    ("signac.job:Job.init", "except Exception"):
-        "the handler of the failed early-exit load performs the full initialisation and a validating load; its own errors propagate",
-    ("signac.project:Project.repair", "except OSError"):
-        "collect-and-report: the job id is appended to `corrupted`, which is raised as JobsCorruptedError at the end",
-    ("signac.project:Project.repair", "except (KeyError, JobsCorruptedError)"):
-        "collect-and-report (not an I/O handler; listed for completeness)",
-    ("signac.project:Project.repair", "except Exception"):
-        "collect-and-report: init() failures are logged, init(force=True) is attempted, and the id is raised at the end",
+# frozen table: function qual -> (headers it applies to or None for any, errno names that may pass silently or None, reason)
+# Keyed by function, not by the spelling of the handler: `except Exception` split into `except OSError` + `except Exception`
+# is the same discipline as long as the errno set that passes silently stays within what is justified.
+C11_FUNCS = {
+    "signac.job:_StatePointDict.save": (None, {"EEXIST", "EACCES"},
+        "EEXIST/EACCES on the state point write pass through: the caller (Job.init) re-validates by loading the file afterwards (C02-c)"),
+    "signac.job:Job.init": ({"except Exception"}, None,
+        "the handler of the failed early-exit load performs the full initialisation and a validating load; its own errors propagate"),
+    "signac.project:Project.repair": ({"except OSError", "except (KeyError, JobsCorruptedError)", "except Exception"}, None,
+        "collect-and-report: the job id is appended to `corrupted`, which is raised as JobsCorruptedError at the end"),
 }
+C11_TABLE = {(q, h): r for q, (hs, _e, r) in C11_FUNCS.items() for h in (hs or {"*"})}
+C11_ERRNOS = {q: e for q, (_h, e, _r) in C11_FUNCS.items() if e is not None}
 
 
-# errno names a frozen handler may let pass silently (None = not errno-based)
-C11_ERRNOS = {
-    ("signac.job:_StatePointDict.save", "except Exception"): {"EEXIST", "EACCES"},
-}
+def _frozen(fq, hdr_norm):
+    ent = C11_FUNCS.get(fq)
+    if ent is None:
+        return None
+    hs, errnos, reason = ent
+    if hs is not None and hdr_norm not in hs:
+        return None
+    return errnos, reason
 
 
 def _catches_oserror(ex, fi, h):
@@ -131,15 +135,16 @@ def c11_a(ctx: Ctx):
             if outer and common.reraises_on_all_paths(ctx, f, outer[0]) is None:
                 out.append(ctx.ok(R, f, n, "best-effort clean-up nested inside a handler that re-raises on every path", construct=key))
                 continue
-            if (f.qual, hdr_norm) in C11_TABLE:
-                allowed = C11_ERRNOS.get((f.qual, hdr_norm))
+            fz = _frozen(f.qual, hdr_norm)
+            if fz is not None:
+                allowed, reason = fz
                 silent = _silent_errnos(ctx, f, n, ex)
                 nested = bool(outer)
                 if allowed is None or nested or (silent is not None and silent <= allowed):
-                    out.append(ctx.ok(R, f, n, "frozen exception: " + C11_TABLE[(f.qual, hdr_norm)], construct=key))
+                    out.append(ctx.ok(R, f, n, "frozen exception: " + reason, construct=key))
                 else:
                     out.append(ctx.viol(R, f, n, f"handler `{hdr}` passes silently for {sorted(silent) if silent is not None else 'any error'}; only "
-                                        f"{sorted(allowed)} are justified here ({C11_TABLE[(f.qual, hdr_norm)]})", construct=key))
+                                        f"{sorted(allowed)} are justified here ({reason})", construct=key))
                 continue
             out.append(ctx.viol(R, f, n, f"handler `{hdr}` can complete without raising for errors other than ENOENT: an I/O error (EIO, ENOSPC, EACCES, ...) "
                                 "is dropped and the operation reports success", construct=key, witness=ctx.cfg(f).describe_path(w)))
